@@ -28,8 +28,8 @@ func init() {
 	prop("C11", []string{"R-EXHAUST", "R-SIBLING"},
 		"every per-strategy dispatcher (IsMatch, Find at zero/non-zero, FindIndices, FindIndicesAt, with-state) either handles every strategy or falls to the universal NFA helper (R-EXHAUST b); the X / XAt / XAtWithState variants behind Find vs FindAll/Count consult the same guard flags (R-SIBLING).",
 		"the relational equalities themselves (Match <=> FindIndex != nil, prefix property of FindAll, Count = len(FindAll)).")
-	prop("C15", []string{"R-FOLD", "R-ASCIIGUARD", "R-DISTINGUISH"},
-		"case-insensitive literals are compiled/extracted through unicode.SimpleFold on every path (R-FOLD); the ASCII-only automaton runs only on slices proven ASCII (R-ASCIIGUARD); byte-table fast paths read the FoldCase flag and decline non-ASCII members (R-DISTINGUISH).",
+	prop("C15", []string{"R-FOLD", "R-ASCIIGUARD"},
+		"case-insensitive literals are compiled/extracted through unicode.SimpleFold on every path (R-FOLD); the ASCII-only automaton runs only on slices proven ASCII (R-ASCIIGUARD).",
 		"the UTF-8 range-splitting tables of compileUTF8Range* (a finite numerical fact over 1.1M code points), invalid-byte-as-U+FFFD behaviour: the core of C15 is declined.")
 	prop("C05", []string{"R-RECURSION", "R-EPOCH"},
 		"every search-time recursion (call-graph cycle reachable from a search root) is guarded by a visited test-and-set gate on every path to the recursive call (R-RECURSION); the visited epoch of the backtracker is never advanced inside a start-position loop that calls the gated recursion, and every advance handles wrap-around (R-EPOCH).",
